@@ -333,6 +333,11 @@ def new_loop():
 def install_clock():
     import msmart.lan as lan
     lan.datetime = VClock
+    try:
+        import msmart.cloud as cloud
+        cloud.datetime = VClock          # request time stamps follow the virtual clock as well
+    except Exception:  # noqa: BLE001
+        pass
 
 
 class VPolicy(asyncio.DefaultEventLoopPolicy):
